@@ -96,6 +96,31 @@ func evalString(js string) (string, string) {
 	return s, ""
 }
 
+// ---- local time zone ---------------------------------------------------------------------------
+
+// zones are the non-UTC offsets (minutes east of Greenwich) a case may run under. Fixed offsets: no
+// daylight saving, so LocalTZA is constant and DaylightSavingTA is 0 (15.9.1.7–15.9.1.9).
+var zones = []int{330, -480, 765, -210, 60, -720, 840}
+
+// inZone runs fn with the process-local zone set to UTC+tzMin minutes and restores UTC afterwards.
+// otto reads time.Local at every local-time operation; tests of the package run sequentially.
+func inZone(tzMin int, fn func()) {
+	if tzMin != 0 {
+		time.Local = time.FixedZone(fmt.Sprintf("TZ%+d", tzMin), tzMin*60)
+		defer func() { time.Local = time.UTC }()
+	}
+	fn()
+}
+
+func offMs(tzMin int) int64 { return int64(tzMin) * m12.MsPerMinute }
+
+func zoneClass(tzMin int) string {
+	if tzMin == 0 {
+		return "zone:UTC"
+	}
+	return fmt.Sprintf("zone:%+d", tzMin)
+}
+
 // ---- values ------------------------------------------------------------------------------------
 
 func parseLit(l string) float64 {
@@ -154,7 +179,9 @@ func num(x float64) string {
 }
 
 // expectedSnap is what __snap must return for a date whose time value is t (NaN = invalid).
-func expectedSnap(t float64) []string {
+// off is LocalTZA in ms (the zone the case runs under; no daylight saving): the local accessors are
+// the model applied to LocalTime(t) = t + off, getTimezoneOffset is (t − LocalTime(t)) / msPerMinute.
+func expectedSnap(t float64, off int64) []string {
 	out := make([]string, 0, len(snapNames)+2)
 	if math.IsNaN(t) {
 		for range snapNames[:ixISO] {
@@ -165,12 +192,13 @@ func expectedSnap(t float64) []string {
 	}
 	ti := int64(t)
 	f := m12.Decompose(ti)
+	l := m12.Decompose(ti + off)
 	iso := m12.ToISOString(ti)
 	n := func(v int64) string { return strconv.FormatInt(v, 10) }
 	out = append(out, n(ti), n(ti),
 		n(f.Year), n(f.Month), n(f.Date), n(f.WeekDay), n(f.Hours), n(f.Minutes), n(f.Seconds), n(f.Ms),
-		n(f.Year), n(f.Month), n(f.Date), n(f.WeekDay), n(f.Hours), n(f.Minutes), n(f.Seconds), n(f.Ms),
-		n(f.Year-1900), "0", "s:"+iso, "s:"+iso, n(ti), n(ti))
+		n(l.Year), n(l.Month), n(l.Date), n(l.WeekDay), n(l.Hours), n(l.Minutes), n(l.Seconds), n(l.Ms),
+		n(l.Year-1900), n(-off/m12.MsPerMinute), "s:"+iso, "s:"+iso, n(ti), n(ti))
 	return out
 }
 
@@ -186,8 +214,8 @@ func snapLabel(i int) string {
 
 // compareSnap compares a __snap result with the model; excluded lists the known-finding classes
 // under which individual entries were skipped.
-func compareSnap(got string, t float64) (fail string, excluded []string) {
-	want := expectedSnap(t)
+func compareSnap(got string, t float64, off int64) (fail string, excluded []string) {
+	want := expectedSnap(t, off)
 	parts := strings.Split(got, "|")
 	if len(parts) != len(want) {
 		return fmt.Sprintf("snapshot has %d entries, want %d: %q", len(parts), len(want), got), nil
@@ -208,7 +236,7 @@ func compareSnap(got string, t float64) (fail string, excluded []string) {
 			continue
 		}
 		if parts[i] != want[i] {
-			return fmt.Sprintf("%s = %s, ES5 15.9.1/15.9.5 give %s (time value %s)", snapLabel(i), parts[i], want[i], num(t)), excluded
+			return fmt.Sprintf("%s = %s, ES5 15.9.1/15.9.5 give %s (time value %s, LocalTZA %d min)", snapLabel(i), parts[i], want[i], num(t), off/m12.MsPerMinute), excluded
 		}
 	}
 	return "", excluded
